@@ -69,6 +69,10 @@ func runC19(seed uint64, cs, gi, histories int) c19Result {
 
 // C19: worlds are isolated and can be driven concurrently, one goroutine each.
 func caseC19(c *Ctx) {
+	if c.Mode == "shareddump" {
+		c19SharedDump(c)
+		return
+	}
 	goroutines, histories := 8, 6
 	if c.Tier == "thorough" {
 		goroutines, histories = 32, 8
